@@ -4,6 +4,226 @@
 open Model
 open G1drv
 
+(* ---------------- G3 part (blackboard registry) ---------------- *)
+(* G3 part of the C12 driver (API-level uniqueness of the blackboard writer port / write handles).
+   A fragment: paste it into ocaml/c12/driver.ml after `open Model`; entry point `run_g3 ()`.
+   Parsing / printing only; all behaviour comes from Model (extracted from model/Blackboard.v):
+     bb_new bb_step         the concrete model (the tie): replayed on the harness's operations,
+                            its observation and its (number_of_writers, number_of_readers) are
+                            compared with the implementation's            -> kind=model
+     bb_sp_new bb_sp_step   the reference specification, an ACCEPTOR that is driven by the
+     bb_sp_digest_ok        implementation's OWN observations (never by the model's): it rejects
+                            e.g. a second successful create-writer while a Writer is held, a second
+                            live write handle for a key, a get that is not the last written value,
+                            a refused create when nothing holds the resource, more than
+                            max_writers registered writers                 -> kind=spec
+   input (harness/g3/c12):
+     C <local|ipc> mr=<max_readers> ty=<t,..> init=<v,..> hist=<replay string>
+     O <op> <args> = <observation> | w=<n> r=<n> *)
+module G3 = struct
+  let rec pos_of_int (i : int) : positive =
+    if i = 1 then XH else if i land 1 = 0 then XO (pos_of_int (i lsr 1)) else XI (pos_of_int (i lsr 1))
+  let n_of_int (i : int) : n = if i = 0 then N0 else Npos (pos_of_int i)
+  let rec int_of_pos = function XH -> 1 | XO p -> 2 * int_of_pos p | XI p -> 2 * int_of_pos p + 1
+  let int_of_n = function N0 -> 0 | Npos p -> int_of_pos p
+  let rec nat_of_int (i : int) : nat = if i <= 0 then O else S (nat_of_int (i - 1))
+  let rec int_of_nat = function O -> 0 | S k -> 1 + int_of_nat k
+  let soi = string_of_int
+
+  (* the harness's vocabulary; "noentry" is EntryHandleMutError::EntryDoesNotExist for `we` and
+     EntryHandleError::EntryDoesNotExist for `re` *)
+  let show_obs (name : string) (o : bobs) : string =
+    match o with
+    | OOk -> "ok"
+    | OId k -> "ok" ^ soi (int_of_nat k)
+    | OWriterErr ExceedsMaxSupportedWriters -> "maxw"
+    | OWriterErr W_InternalFailure -> "err:InternalFailure"
+    | OWriterErr W_FailedToDeployThreadsafetyPolicy -> "err:FailedToDeployThreadsafetyPolicy"
+    | OWriterErr W_UnableToCreatePortTag -> "err:UnableToCreatePortTag"
+    | OHandleMutErr HM_EntryDoesNotExist -> "noentry"
+    | OHandleMutErr HM_HandleAlreadyExists -> "exists"
+    | OReaderErr ExceedsMaxSupportedReaders -> "maxr"
+    | OReaderErr R_FailedToDeployThreadsafetyPolicy -> "err:FailedToDeployThreadsafetyPolicy"
+    | OReaderErr R_UnableToCreatePortTag -> "err:UnableToCreatePortTag"
+    | OHandleErr -> ignore name; "noentry"
+    | OValue (v, g) -> "v" ^ soi (int_of_n v) ^ "g" ^ soi (int_of_n g)
+    | OBool true -> "t"
+    | OBool false -> "f"
+    | ORefused -> "-"
+
+  let is_digits s = s <> "" && (let ok = ref true in String.iter (fun c -> if c < '0' || c > '9' then ok := false) s; !ok)
+
+  let parse_obs (name : string) (s : string) : bobs option =
+    let len = String.length s in
+    match s with
+    | "ok" -> Some OOk
+    | "maxw" -> Some (OWriterErr ExceedsMaxSupportedWriters)
+    | "maxr" -> Some (OReaderErr ExceedsMaxSupportedReaders)
+    | "exists" -> Some (OHandleMutErr HM_HandleAlreadyExists)
+    | "noentry" -> if name = "re" then Some OHandleErr else Some (OHandleMutErr HM_EntryDoesNotExist)
+    | "t" -> Some (OBool true)
+    | "f" -> Some (OBool false)
+    | "-" -> Some ORefused
+    | _ ->
+      if len > 2 && String.sub s 0 2 = "ok" && is_digits (String.sub s 2 (len - 2)) then
+        Some (OId (nat_of_int (int_of_string (String.sub s 2 (len - 2)))))
+      else if len > 1 && s.[0] = 'v' then
+        (match String.index_opt s 'g' with
+         | Some i when is_digits (String.sub s 1 (i - 1)) && is_digits (String.sub s (i + 1) (len - i - 1)) ->
+           Some (OValue (n_of_int (int_of_string (String.sub s 1 (i - 1))),
+                         n_of_int (int_of_string (String.sub s (i + 1) (len - i - 1)))))
+         | _ -> None)
+      else None
+
+  let parse_op (name : string) (args : string list) : bop =
+    let ai k = int_of_string (List.nth args k) in
+    let an k = nat_of_int (ai k) in
+    match name with
+    | "cw" -> CreateWriter                       (* the factory index is not part of the model *)
+    | "dw" -> DropWriter (an 0)
+    | "we" -> WriterEntry (an 0, an 1, n_of_int (ai 2))
+    | "dh" -> DropHandleMut (an 0)
+    | "uc" -> UpdateWithCopy (an 0, n_of_int (ai 1))
+    | "lu" -> LoanUninit (an 0)
+    | "wl" -> WriteLoan (an 0, n_of_int (ai 1))
+    | "al" -> AssumeInit (an 0)
+    | "ul" -> UpdateLoan (an 0, n_of_int (ai 1))
+    | "dl" -> DiscardLoan (an 0)
+    | "cr" -> CreateReader
+    | "dr" -> DropReader (an 0)
+    | "re" -> ReaderEntry (an 0, an 1, n_of_int (ai 2))
+    | "dx" -> DropHandle (an 0)
+    | "g" -> Get (an 0)
+    | "ud" -> IsUpToDate (an 0)
+    | _ -> failwith ("unknown op " ^ name)
+
+  let kv tok = match String.index_opt tok '=' with
+    | Some i -> (String.sub tok 0 i, String.sub tok (i + 1) (String.length tok - i - 1))
+    | None -> (tok, "")
+
+  let run () =
+    let st : bb option ref = ref None          (* None: the model diverged in this case (or no case yet) *)
+    and sp : sp option ref = ref None in       (* None: the specification rejected earlier in this case *)
+    let case_no = ref 0 and op_no = ref 0 and ops_total = ref 0 in
+    let mm_model = ref 0 and mm_spec = ref 0 in
+    let cur_case = Buffer.create 256 and cur_nontrivial = ref false in
+    let seen = Hashtbl.create 100000 in
+    let distinct_nontrivial = ref 0 in
+    let opcount = Hashtbl.create 64 and extra = Hashtbl.create 64 in
+    let bump tbl k = Hashtbl.replace tbl k (1 + try Hashtbl.find tbl k with Not_found -> 0) in
+    (* bookkeeping for the EXTRA coverage counters only (never for a verdict) *)
+    let refused_since_create = ref false and handle_refused = ref false in
+    let flush_case () =
+      if Buffer.length cur_case > 0 then begin
+        let key = Digest.string (Buffer.contents cur_case) in
+        if !cur_nontrivial && not (Hashtbl.mem seen key) then begin
+          Hashtbl.add seen key (); incr distinct_nontrivial end;
+        Buffer.clear cur_case; cur_nontrivial := false
+      end in
+    (try
+      while true do
+        let line = input_line stdin in
+        let toks = List.filter (fun s -> s <> "") (String.split_on_char ' ' line) in
+        match toks with
+        | "C" :: kind :: rest ->
+          flush_case (); incr case_no; op_no := 0;
+          let get k = try List.assoc k (List.map kv rest) with Not_found -> failwith ("header lacks " ^ k) in
+          let ints s = List.map int_of_string (List.filter (fun x -> x <> "") (String.split_on_char ',' s)) in
+          let mr = int_of_string (get "mr") in
+          let tys = ints (get "ty") and inits = ints (get "init") in
+          if List.length tys <> List.length inits then failwith "ty/init differ in length";
+          let init = List.map2 (fun t v -> (n_of_int t, n_of_int v)) tys inits in
+          (* distinct = distinct (max_readers, history); the service kind is deliberately not part of the key *)
+          Buffer.add_string cur_case (Printf.sprintf "%d|" mr);
+          bump extra ("cases_" ^ kind);
+          refused_since_create := false; handle_refused := false;
+          st := Some (bb_new (nat_of_int mr) init);
+          sp := Some (bb_sp_new (nat_of_int mr) init)
+        | "O" :: name :: rest ->
+          incr op_no; incr ops_total;
+          let rec split acc = function "=" :: r -> (List.rev acc, r) | x :: r -> split (x :: acc) r | [] -> (List.rev acc, []) in
+          let (args, obs) = split [] rest in
+          let impl = (match obs with o :: _ -> o | [] -> "?") in
+          let digest = (match obs with _ :: "|" :: d -> List.map kv d | _ -> []) in
+          let dnum k = try Some (int_of_string (List.assoc k digest)) with _ -> None in
+          Buffer.add_string cur_case (name ^ " " ^ String.concat " " args ^ ";");
+          bump opcount name;
+          let o = parse_op name args in
+          (* ---- the concrete model ---- *)
+          (match !st with
+           | None -> ()
+           | Some s ->
+             let (s', om) = bb_step s o in
+             let oms = show_obs name om in
+             if oms <> impl then begin
+               incr mm_model; st := None;
+               Printf.printf "MISMATCH case=%d op=%d kind=model line=[%s] model=%s impl=%s\n" !case_no !op_no line oms impl
+             end else begin
+               let mw = int_of_nat (bb_nwriters s') and mrd = int_of_nat (bb_nreaders s') in
+               (match dnum "w", dnum "r" with
+                | Some w, Some r when w = mw && r = mrd -> st := Some s'
+                | _ ->
+                  incr mm_model; st := None;
+                  Printf.printf "MISMATCH case=%d op=%d kind=model line=[%s] model=w=%d_r=%d impl=registered-ports-differ\n"
+                    !case_no !op_no line mw mrd)
+             end);
+          (* ---- the reference specification, on the implementation's own observations ---- *)
+          (match !sp with
+           | None -> ()
+           | Some a ->
+             (match parse_obs name impl with
+              | None ->
+                incr mm_spec; sp := None;
+                Printf.printf "MISMATCH case=%d op=%d kind=spec line=[%s] spec=no-such-answer impl=%s\n" !case_no !op_no line impl
+              | Some ob ->
+                (match bb_sp_step a o ob with
+                 | None ->
+                   incr mm_spec; sp := None;
+                   Printf.printf "MISMATCH case=%d op=%d kind=spec line=[%s] spec=inadmissible impl=%s\n" !case_no !op_no line impl
+                 | Some a' ->
+                   sp := Some a';
+                   (match dnum "w", dnum "r" with
+                    | Some w, Some r ->
+                      if not (bb_sp_digest_ok a' (nat_of_int w) (nat_of_int r)) then begin
+                        incr mm_spec;
+                        Printf.printf "MISMATCH case=%d op=%d kind=spec line=[%s] spec=registered-ports-inadmissible impl=w=%d_r=%d\n"
+                          !case_no !op_no line w r end
+                    | _ ->
+                      incr mm_spec;
+                      Printf.printf "MISMATCH case=%d op=%d kind=spec line=[%s] spec=digest-missing impl=%s\n" !case_no !op_no line impl))));
+          (* ---- coverage counters ---- *)
+          (match name, impl with
+           | "cw", "maxw" -> bump extra "cw.maxw"; cur_nontrivial := true; refused_since_create := true
+           | "cw", _ when String.length impl > 2 && String.sub impl 0 2 = "ok" ->
+             bump extra "cw.ok"; if !refused_since_create then bump extra "cw.ok_after_refusal"; refused_since_create := false
+           | "we", "exists" -> bump extra "we.exists"; cur_nontrivial := true; handle_refused := true
+           | "we", "noentry" -> bump extra "we.noentry"
+           | "we", _ when String.length impl > 2 && String.sub impl 0 2 = "ok" ->
+             bump extra "we.ok"; if !handle_refused then bump extra "we.ok_after_refusal"
+           | "cr", "maxr" -> bump extra "cr.maxr"
+           | "re", "noentry" -> bump extra "re.noentry"
+           | ("uc" | "ul" | "al"), "ok" ->
+             bump extra "updates"; if !refused_since_create || !handle_refused then bump extra "updates_after_a_refused_create"
+           | "g", _ when String.length impl > 1 && impl.[0] = 'v' -> bump extra "gets"
+           | "ud", "f" -> bump extra "ud.f"
+           | "dw", "ok" -> (match dnum "w" with Some 1 -> bump extra "dw.slot_kept_by_handle" | _ -> ())
+           | _, "P" -> bump extra "panics"
+           | _ -> ())
+        | [] -> ()
+        | _ -> failwith ("bad line: " ^ line)
+      done
+    with End_of_file -> ());
+    flush_case ();
+    Printf.printf "SUMMARY cases=%d ops=%d mismatches_model=%d mismatches_spec=%d distinct_nontrivial=%d\n"
+      !case_no !ops_total !mm_model !mm_spec !distinct_nontrivial;
+    Hashtbl.iter (fun k v -> Printf.printf "OPCOUNT %s %d\n" k v) opcount;
+    Hashtbl.iter (fun k v -> Printf.printf "EXTRA %s %d\n" k v) extra
+end
+
+let run_g3 : unit -> unit = G3.run
+
+(* ---------------- G1 part (sequence lock) ---------------- *)
+
 type aop = Acq | Rel | St of int | Ln of int | Dc of int | Ld
 let parse_aop s =
   let num k = int_of_string (String.sub s k (String.length s - k)) in
@@ -97,6 +317,71 @@ let count_events n es =
       if k = KCell then bump (Printf.sprintf "cell_copy_size_%d" n)
     | ERet _ -> ()) es
 
+(* ---- happens-before analysis of the observed trace (vector clocks, C11 release/acquire incl.
+   release sequences through RMWs): is every plain access of a data cell ordered with the
+   conflicting plain accesses of other threads?  Runs on the model's events, which the tie has
+   just compared with the implementation's (kind, both orderings, values).  The reader's raw
+   copy is not a gated access: it is placed where it happens, right after the write_cell load /
+   failed validation that yields the counter it copies for. ---- *)
+type rd = { rt : int; rclk : int array; mutable status : int }   (* 0 in flight, 1 validated, 2 discarded *)
+type hb = {
+  clk : int array array;
+  lrel : (int, int array) Hashtbl.t;          (* atomic location (base) -> clock released by its current release sequence *)
+  wclk : int array array;                     (* per cell: clock of the last plain write *)
+  mutable reads : rd list array;              (* per cell: plain reads since the last write *)
+  mutable sched_rev : int list;
+  mutable r_valid : int; mutable r_disc : int; mutable r_infl : int; mutable w_r : int; mutable w_w : int;
+}
+let hb_new nt = { clk = Array.init nt (fun t -> let a = Array.make nt 0 in a.(t) <- 1; a); lrel = Hashtbl.create 4;
+                  wclk = Array.init 2 (fun _ -> Array.make nt 0); reads = Array.make 2 []; sched_rev = [];
+                  r_valid = 0; r_disc = 0; r_infl = 0; w_r = 0; w_w = 0 }
+let vjoin a b = Array.mapi (fun i x -> max x b.(i)) a
+let vle a b = let ok = ref true in Array.iteri (fun i x -> if x > b.(i) then ok := false) a; !ok
+let is_acq = function Acquire | AcqRel | SeqCst -> true | _ -> false
+let is_rel = function Release | AcqRel | SeqCst -> true | _ -> false
+let whatif = try Sys.getenv "C12_WHATIF" with Not_found -> ""
+let hb_event (h : hb) t es =
+  let nt = Array.length h.clk in
+  List.iter (function
+    | EAcc (site, base, idx, k, o, ofl, rdv, _, ok) ->
+      let site = int_of_n site and loc = int_of_n base in
+      (* what-if analysis (never used by the check): C12_WHATIF=fadd_acqrel | load_acquire re-runs the
+         analysis as if the writer's fetch_add were AcqRel / its write_cell load were Acquire *)
+      let o = match whatif with
+        | "fadd_acqrel" when site = 12 || site = 22 -> AcqRel
+        | "load_acquire" when site = 10 || site = 20 -> Acquire
+        | _ -> o in
+      if k = KCell then begin
+        (* plain write of cell idx by the producer *)
+        let c = int_of_n idx in
+        List.iter (fun r -> if r.rt <> t && not (r.rclk.(r.rt) <= h.clk.(t).(r.rt)) then
+          (match r.status with 1 -> h.r_valid <- h.r_valid + 1 | 2 -> h.r_disc <- h.r_disc + 1 | _ -> h.r_infl <- h.r_infl + 1)) h.reads.(c);
+        if not (vle h.wclk.(c) h.clk.(t)) then h.w_w <- h.w_w + 1;
+        h.wclk.(c) <- Array.copy h.clk.(t); h.reads.(c) <- []
+      end else begin
+        let l = try Hashtbl.find h.lrel loc with Not_found -> Array.make nt 0 in
+        let writes = (match k with KLoad -> false | KCas -> ok | _ -> true) in
+        let rmw = (match k with KLoad | KStore -> false | _ -> true) in
+        let ord = if k = KCas && not ok then ofl else o in
+        if k <> KStore && is_acq ord then h.clk.(t) <- vjoin h.clk.(t) l;
+        if writes then begin
+          let nl = if is_rel ord then (if rmw then vjoin l h.clk.(t) else Array.copy h.clk.(t)) else (if rmw then l else Array.make nt 0) in
+          Hashtbl.replace h.lrel loc nl;
+          if is_rel ord then h.clk.(t).(t) <- h.clk.(t).(t) + 1
+        end;
+        (* the reader's validation: settles its copy; a failed one starts the next copy *)
+        if site = 31 then
+          Array.iter (fun l -> List.iter (fun r -> if r.rt = t && r.status = 0 then r.status <- (if ok then 1 else 2)) l) h.reads;
+        if (site = 30 || (site = 31 && not ok)) && int_of_n rdv > 0 then begin
+          let c = (int_of_n rdv - 1) mod 2 in
+          if not (vle h.wclk.(c) h.clk.(t)) then h.w_r <- h.w_r + 1;
+          h.reads.(c) <- { rt = t; rclk = Array.copy h.clk.(t); status = 0 } :: h.reads.(c)
+        end
+      end
+    | ERet _ -> ()) es
+
+let witness : (string * int) option ref = ref None    (* shortest execution with an unordered validated read *)
+
 let mk_sys toks =
   match toks with
   | size :: prog :: _ ->
@@ -108,11 +393,20 @@ let mk_sys toks =
     let conv = function Acq -> acq | Rel -> rel | Ld -> ld | St b -> sl_store (bytes b) | Ln b -> sl_loan (bytes b) | Dc b -> sl_discard (bytes b) in
     let progs = Array.map (List.map conv) aprogs in
     let c = ref (sl_init (nat_of_int n) (bytes init_byte) (fun t -> let i = int_of_nat t in if i < nt then progs.(i) else [])) in
+    let h = hb_new nt in
     let step t =
       let rec go () = match sl_step1 (nat_of_int t) !c with
         | None -> None
         | Some (c', []) -> c := c'; go ()
-        | Some (c', es) -> c := c'; count_events n es; Some es in go () in
+        | Some (c', es) ->
+          c := c'; count_events n es;
+          let before = h.r_valid in
+          h.sched_rev <- t :: h.sched_rev; hb_event h t es;
+          if h.r_valid > before && before = 0 then begin
+            let len = List.length h.sched_rev in
+            (match !witness with Some (_, l) when l <= len -> () | _ ->
+              witness := Some (Printf.sprintf "%d:%s:%s" n prog (String.concat "," (List.rev_map string_of_int h.sched_rev)), len)) end;
+          Some es in go () in
     let finished t =
       let rec go cc = match sl_step1 (nat_of_int t) cc with
         | None -> true
@@ -123,9 +417,20 @@ let mk_sys toks =
         let (w, h) = sl_final (fst !c) in
         let m = [ u64_string_of_n w; u64_string_of_n h ] in
         if m = toks then None else Some (Printf.sprintf "model (write_cell,value code) [%s] impl [%s]" (String.concat "," m) (String.concat "," toks)));
-      spec = (fun rets final -> spec_check n aprogs rets final) }
+      spec = (fun rets final ->
+        let add k v = if v > 0 then Hashtbl.replace extra k (v + try Hashtbl.find extra k with Not_found -> 0) in
+        add "hb_cell_write_unordered_with_validated_read" h.r_valid;
+        add "hb_cell_write_unordered_with_discarded_read" h.r_disc;
+        add "hb_cell_write_unordered_with_inflight_read" h.r_infl;
+        add "hb_read_unordered_with_cell_write" h.w_r;
+        add "hb_cell_write_unordered_with_cell_write" h.w_w;
+        if h.r_valid > 0 then bump "hb_executions_with_unordered_validated_read";
+        bump "hb_executions_analysed";
+        spec_check n aprogs rets final) }
   | _ -> failwith "unknown case header"
 
 let () =
+  if Array.length Sys.argv > 1 && Sys.argv.(1) = "g3" then run_g3 () else begin
   run mk_sys (fun toks -> String.concat " " toks);
-  Hashtbl.iter (fun k v -> Printf.printf "EXTRA %s %d\n" k v) extra
+  Hashtbl.iter (fun k v -> Printf.printf "EXTRA %s %d\n" k v) extra;
+  (match !witness with Some (w, len) -> Printf.printf "EXTRA hbwitness:%s %d\n" w len | None -> ()) end
